@@ -55,6 +55,20 @@ theorem C16_unobserve_removes {r r' : Reg Nat} (w : r.WF) {alive : Nat → Bool}
     rw [hs a ty, if_pos hm]
     simp [Reg.keep]
 
+/-- **`unobserve` removes nothing else**: whatever the selectors, in every subscriber list every other live handler
+    `g ≠ h` keeps all its subscriptions (as many entries as before).  Handlers are identities here: whether the owners
+    of two bound methods compare equal (`__eq__` of value objects) plays no part (scenarios `veq` of the harness). -/
+theorem C16_unobserve_keeps_others {r r' : Reg Nat} (w : r.WF) {alive : Nat → Bool} {n : Sel Nat} {t : Sel SigType}
+    {h g : Nat} (ho : r.unobserve alive n t h = .ok r') (hg : g ≠ h) (hl : alive g = true) (a : Nat) (ty : SigType) :
+    (r'.subs a ty).count g = (r.subs a ty).count g := by
+  rcases Reg.unobserve_spec w alive n t h with ⟨_, he⟩ | ⟨_, r'', ho', _, hs⟩
+  · rw [he] at ho; cases ho
+  · rw [ho'] at ho; injection ho with ho; subst ho
+    rw [hs a ty]
+    split
+    · exact List.count_filter (by simp [hl, hg])
+    · rfl
+
 /-- After `clear_all_subscriptions(name)` / `(All())` the matching entries are empty. -/
 theorem C16_clear_removes (r : Reg Nat) (n : Sel Nat) (a : Nat) (ty : SigType) (hm : n.matches a = true) :
     (r.clearAll n).subs a ty = [] := by
